@@ -11,7 +11,7 @@ for mp in sorted(glob.glob("/verif/seeded/*/meta.json")):
     if m.get("expected") == "not-detected-by-design":
         print(m["id"], "skipped:", m.get("judgement", "")[:120], flush=True)
         continue
-    p = subprocess.run(["/verif/tools/seed.py", "detect", m["id"], m["breaks_property"]], stdout=subprocess.PIPE, stderr=subprocess.STDOUT, text=True)
+    p = subprocess.run(["/verif/tools/seed.py", "detect", m["id"], m.get("check_property", m["breaks_property"])], stdout=subprocess.PIPE, stderr=subprocess.STDOUT, text=True)
     first = p.stdout.strip().splitlines()[0] if p.stdout.strip() else "no output"
     print(first, flush=True)
     if "DETECTED" not in first:
